@@ -24,6 +24,8 @@ import (
 	"sort"
 	"strings"
 	"sync"
+	"sync/atomic"
+	"time"
 
 	"filippo.io/age"
 	"filippo.io/age/agessh"
@@ -239,7 +241,11 @@ func newConf(name, declared, pem, format string, D, S, U, O, X *party) *idConf {
 // no file: the negation of an Ed25519 key, an RSA key with another exponent).
 func newConfPub(name, declared string, pub ssh.PublicKey, pem, format string, D, S, U, O, X *party) *idConf {
 	c := &idConf{name: name, declared: declared, pem: pem, format: format, D: D, S: S, U: U, O: O,
-		consistent: D == S, pub: pub, pemBytes: keys.Data(pem), byName: map[string]*fileKind{}}
+		consistent: D == S, pub: pub, byName: map[string]*fileKind{}}
+	if !strings.HasPrefix(pem, "generated:") {
+		c.pemBytes = keys.Data(pem)
+	}
+	sFiles := !c.consistent && S.typ != "unsupported" // no file can be addressed to a key of an unsupported type
 	add := func(ext bool, n string, ps ...*party) *fileKind {
 		f := buildFile(name, n, D, S, ps...)
 		c.byName[n] = f
@@ -250,7 +256,7 @@ func newConfPub(name, declared string, pub ssh.PublicKey, pem, format string, D,
 		return f
 	}
 	add(false, "D", D) // addressed to the declared key
-	if !c.consistent {
+	if sFiles {
 		add(false, "S", S) // addressed to the key actually stored in the private-key file
 	}
 	add(false, "U", U) // unrelated key of the same type
@@ -263,7 +269,7 @@ func newConfPub(name, declared string, pub ssh.PublicKey, pem, format string, D,
 	add(false, "T", U, D) // same type, other tag first
 	// extras used by the sampled histories only
 	add(true, "N", X, O) // several stanzas, none of the identity's type
-	if !c.consistent {
+	if sFiles {
 		add(true, "SD", S, D)
 		add(true, "DS", D, S)
 		add(true, "MS", X, O, U, S)
@@ -535,15 +541,51 @@ func fmtPred(prompts int, class string) string {
 	return fmt.Sprintf("%d prompt(s), %s", prompts, class)
 }
 
+// stepPatience bounds how long a step may stay silent; maxHangs caps the number
+// of reported non-returning steps, after which the stage stops.
+const (
+	stepPatience = 20 * time.Second
+	maxHangs     = 3
+)
+
+var hangsReported atomic.Int64
+
+// waitStep waits for the step; false = it has been silent for stepPatience.
+func waitStep(done <-chan struct{}, lastActivity *atomic.Int64) bool {
+	tick := time.NewTicker(500 * time.Millisecond)
+	defer tick.Stop()
+	for {
+		select {
+		case <-done:
+			return true
+		case <-tick.C:
+			if time.Since(time.Unix(0, lastActivity.Load())) > stepPatience {
+				select {
+				case <-done:
+					return true
+				default:
+					return false
+				}
+			}
+		}
+	}
+}
+
 // runHistory executes one history on one fresh identity value and checks every
 // step against the model.
 func runHistory(r *mon.Run, col *collector, b *batch, h []step) (recs []stepRec) {
 	c := b.c
+	if hangsReported.Load() >= maxHangs {
+		r.Count("histories_skipped_after_hangs", 1)
+		return nil
+	}
 	var cur step
-	prompts := 0
+	var promptCount, lastActivity atomic.Int64
 	cb := func() ([]byte, error) {
-		prompts++
-		return cur.answer()
+		promptCount.Add(1)
+		pw, err := cur.answer()
+		lastActivity.Store(time.Now().UnixNano())
+		return pw, err
 	}
 	id, err := agessh.NewEncryptedSSHIdentity(c.pub, append([]byte(nil), c.pemBytes...), cb)
 	if err != nil {
@@ -552,6 +594,12 @@ func runHistory(r *mon.Run, col *collector, b *batch, h []step) (recs []stepRec)
 	}
 	r.Eval(1)
 	r.Count("decrypt_steps", int64(len(h)))
+	if c.S.typ == "unsupported" {
+		r.Count("unsupported_stored_key_histories", 1)
+		if len(h) >= 2 && h[0].f.hasD && h[0].p == right {
+			r.Count("unsupported_stored_key_histories_len>=2_starting_with_match_and_right_passphrase", 1)
+		}
+	}
 	if strings.HasPrefix(c.name, "ed25519-declared-negation") {
 		r.Count("negated_key_histories", 1)
 		if len(h) >= 2 && h[0].f.name == "D" && h[1].f.name == "S" {
@@ -590,7 +638,7 @@ func runHistory(r *mon.Run, col *collector, b *batch, h []step) (recs []stepRec)
 	for j := range h {
 		cur = h[j]
 		f := cur.f
-		prompts = 0
+		promptCount.Store(0)
 		stateT, stateV := T.label(), V.label()
 		wantT := T.stepP(f.hasD, f.plainCls(), cur.p)
 		wantV := V.stepP(f.hasD, f.plainCls(), cur.p)
@@ -598,18 +646,37 @@ func runHistory(r *mon.Run, col *collector, b *batch, h []step) (recs []stepRec)
 		if followV {
 			state, want = stateV, wantV
 		}
+		// The step runs under a watchdog decided on observable state: it has to
+		// return within stepPatience after the call started or, if the callback
+		// was invoked, after the callback returned.
 		var got observed
-		panicked := func() (p bool) {
+		var panicked bool
+		done := make(chan struct{})
+		lastActivity.Store(time.Now().UnixNano())
+		go func() {
+			defer close(done)
 			defer func() {
 				if x := recover(); x != nil {
-					p = true
-					got = observed{prompts, "panic", fmt.Sprintf("%v\n%s", x, debug.Stack())}
+					panicked = true
+					got = observed{int(promptCount.Load()), "panic", fmt.Sprintf("%v\n%s", x, debug.Stack())}
 				}
 			}()
 			cls, detail := observe(id, f)
-			got = observed{prompts, cls, detail}
-			return false
+			got = observed{int(promptCount.Load()), cls, detail}
 		}()
+		if !waitStep(done, &lastActivity) {
+			// never returned: the goroutine is abandoned with the identity
+			np := int(promptCount.Load())
+			recs = append(recs, stepRec{File: f.name, Stanzas: f.stanzaNames(), Callback: cur.p.String(), Returns: cur.variantName(),
+				State: state, Want: fmtPred(want.prompts, want.class), Got: fmt.Sprintf("%d prompt(s), never returned", np),
+				FileBytes: base64.StdEncoding.EncodeToString(f.file)})
+			if hangsReported.Add(1) <= maxHangs {
+				col.add(mkWitness(fmt.Sprintf("step:%s:never-returned", f.matchClass()),
+					fmt.Sprintf("identity %s (declared %s.pub, private key file %s), history [%s]: step %d decrypts file %s (stanzas for %v); model state %s expects %s, but the call had not returned %v after its last observable activity (%d prompt(s) so far): the identity kept a trace of the earlier calls",
+						c.name, c.declared, c.pem, histString(h[:j+1]), j+1, f.name, f.stanzaNames(), state, fmtPred(want.prompts, want.class), stepPatience, np), j), false)
+			}
+			return recs
+		}
 		recs = append(recs, stepRec{File: f.name, Stanzas: f.stanzaNames(), Callback: cur.p.String(), Returns: cur.variantName(),
 			State: state, Want: fmtPred(want.prompts, want.class), Got: fmtPred(got.prompts, got.class), Detail: got.detail,
 			FileBytes: base64.StdEncoding.EncodeToString(f.file)})
@@ -703,6 +770,8 @@ func main() {
 		"fixed key files: OpenSSH/bcrypt (ssh-keygen -a 2) Ed25519 and RSA, legacy PEM (AES-128-CBC) RSA; RSA moduli of 2048, 2500 and 2052 bits; one right passphrase; wrong = another string, passphrase plus a space, empty, nil",
 		"every step is age.Decrypt with the identity as the only identity, on a well-formed file built by refage; a stanza of the identity's type without arguments is outside the alphabet (C14)",
 		"histories are sequential (C20 covers sharing); the identity value is never copied",
+		"every step of the history stage and every call of the shared-slice Unwrap stage runs under a watchdog: a call that stays silent for 20 s after it started (or after the passphrase callback returned) is reported as never-returned and its history abandoned; after 3 such reports the stage stops (the run cannot be 'held' then)",
+		"identities whose stored key is of an unsupported type (ECDSA P-256 / P-384) are built at start-up with ssh.MarshalPrivateKeyWithPassphrase from deterministic keys and a deterministic tape; DSA and sk- keys cannot be marshalled by x/crypto v0.24",
 		"near-tag stanzas (first argument close to but not the 6-character tag; classes a-i in tagvar.go): a locked identity must not ask; where the stanza is malformed for its own type (argument count, key share) a hard error is accepted in place of no-match; after a legitimate unlock the expected outcome is what the tree's own plain identity answers on that stanza list (Appendix B: unlocked = plain identity); arguments with white space or NUL cannot occur in a header and are run at the Unwrap level only",
 		"multi-identity stage: one age.Decrypt per case over headers of 2..3 (thorough 4) distinct stanzas from {X25519, ssh-ed25519 x2, ssh-rsa x2, unknown} in every order and lists of 2..3 distinct identity kinds in every order, fresh identity values per case; an identity after the one that ends the call may or may not be consulted (at most one prompt, none without a stanza of its own); Unwrap-level sequences on one shared stanza slice compared with a deep snapshot, including two elements of spare capacity",
 		"CLI stage: one `age -d -i KEY -o out FILE` run per case on a pty (fresh process, so one step per identity); the identity's public key is the one embedded in an OpenSSH-format key file, else the sibling .pub; a no-match failure is recognised by the tool's message \"no identity matched\"",
@@ -780,6 +849,37 @@ func main() {
 		negParties = append(negParties, np)
 		all = append(all, c)
 	}
+	// stored key of an unsupported type behind an Ed25519 and behind an RSA declared key
+	var unsConfs []*idConf
+	uks := unsupportedKeys(r)
+	for i, uk := range uks {
+		type decl struct {
+			name string
+			D    *party
+			U, O *party
+		}
+		decls := []decl{{"enc_ed1", encEd1, e1, r1}, {"enc_rsa1", encRsa1, r1, e1}}
+		for j, d := range decls {
+			if !r.Thorough() && (i+j)%2 != 0 {
+				continue // quick: P-256 behind Ed25519, P-384 behind RSA
+			}
+			d, uk := d, uk
+			c, err := tryConf(func() *idConf {
+				return newConfPub(d.D.typ[4:]+"-declared-"+uk.label+"-stored", d.name, keys.EncPub(d.name), "generated:"+uk.label, "openssh-bcrypt-16-rounds", d.D, uk.party, d.U, d.O, x1)
+			})
+			if err != nil {
+				r.Set("unsupported_stored_identity_"+d.name+"_"+uk.label, "not constructible: "+err.Error())
+				continue
+			}
+			c.pemBytes = uk.pem
+			if _, err := agessh.NewEncryptedSSHIdentity(c.pub, c.pemBytes, func() ([]byte, error) { return nil, errCallback }); err != nil {
+				r.Set("unsupported_stored_identity_"+d.name+"_"+uk.label, "NewEncryptedSSHIdentity refuses it: "+err.Error())
+				continue
+			}
+			unsConfs = append(unsConfs, c)
+			all = append(all, c)
+		}
+	}
 	var rsaE3 *idConf
 	{
 		e3 := &party{name: "enc_rsa1(e=3)", typ: "ssh-rsa", rsaPub: &rsa.PublicKey{N: encRsa1.rsaPub.N, E: 3}}
@@ -805,6 +905,9 @@ func main() {
 
 	// start-up sanity: the workload is what it claims to be (else inconclusive, never a verdict)
 	for _, c := range all {
+		if c.S.typ == "unsupported" {
+			continue
+		}
 		if c.consistent != bytes.Equal(c.pub.Marshal(), pubOf(c.S)) {
 			r.Inconclusive("%s: declared/stored key relation is not as configured", c.name)
 			r.Count("sanity_failures", 1)
@@ -879,8 +982,29 @@ func main() {
 	related := func(c *idConf) []sym {
 		return alphabetOf([]*fileKind{c.byName["D"], c.byName["S"], c.byName["SD"], c.byName["DS"], c.byName["U"]})
 	}
-	for _, c := range negConfs {
-		batches = append(batches, enumBatch(c, "all-histories-len<=3-declared-stored-both-neither", related(c), 3))
+	for i, c := range negConfs {
+		L := 3
+		if i > 0 {
+			L = r.Pick(2, 3) // quick: length 3 on the first pair only
+		}
+		batches = append(batches, enumBatch(c, fmt.Sprintf("all-histories-len<=%d-declared-stored-both-neither", L), related(c), L))
+	}
+	// stored key of an unsupported type: files with the matching stanza first /
+	// not first / absent (same type, other type); all histories of length <= 2
+	// (thorough 3), and a few of length 3 that start with a match and the right passphrase
+	for _, c := range unsConfs {
+		al := alphabetOf([]*fileKind{c.byName["D"], c.byName["M2"], c.byName["U"], c.byName["O"]})
+		batches = append(batches, enumBatch(c, fmt.Sprintf("all-histories-len<=%d-match-first-later-absent", r.Pick(2, 3)), al, r.Pick(2, 3)))
+		D, M2, U := c.byName["D"], c.byName["M2"], c.byName["U"]
+		hs := [][]step{
+			{{D, right, 0}, {D, right, 0}, {D, right, 0}},
+			{{D, right, 0}, {U, right, 0}, {D, right, 0}},
+			{{D, right, 0}, {M2, wrong, 0}, {D, right, 0}},
+			{{M2, right, 0}, {D, cberr, 0}, {M2, right, 0}},
+			{{D, wrong, 0}, {D, right, 0}, {U, right, 0}},
+			{{U, right, 0}, {D, right, 0}, {D, right, 0}},
+		}
+		batches = append(batches, &batch{c: c, name: "explicit-len3", count: len(hs), exact: true, history: func(i int) []step { return hs[i] }})
 	}
 	if rsaE3 != nil {
 		batches = append(batches, enumBatch(rsaE3, "all-histories-len<=2-declared-stored-both-neither", related(rsaE3), r.Pick(2, 3)))
@@ -944,6 +1068,15 @@ func main() {
 
 	// the negated-key identities must have been built and run
 	if os.Getenv("C19_STAGE") == "" {
+		if len(unsConfs) == 0 {
+			r.Inconclusive("no identity with a stored key of an unsupported type could be constructed")
+		}
+		if n := r.Counter("unsupported_stored_key_histories_len>=2_starting_with_match_and_right_passphrase"); n < 30 {
+			r.Inconclusive("only %d histories of length >= 2 starting with a matching file and the right passphrase ran on an identity whose stored key is of an unsupported type", n)
+		}
+		if n := r.Counter("histories_skipped_after_hangs"); n > 0 {
+			r.Inconclusive("%d histories were skipped after %d steps never returned", n, maxHangs)
+		}
 		if len(negConfs) == 0 {
 			r.Inconclusive("no identity with declared = negation of the stored Ed25519 key could be constructed")
 		}
@@ -986,10 +1119,21 @@ func main() {
 		if len(negConfs) > 0 {
 			negKind = &idKind{name: "encrypted-ed25519-declared-negated", enc: negConfs[0].pem, key: negParties[0], pub: negConfs[0].pub, mismatch: true, stored: negConfs[0].S}
 		}
-		multiStages(r, ps, negKind)
+		var extra []*idKind
+		if negKind != nil {
+			extra = append(extra, negKind)
+		}
+		if len(unsConfs) > 0 {
+			c := unsConfs[0]
+			extra = append(extra, &idKind{name: "encrypted-" + c.name, enc: c.pem, key: c.D, pub: c.pub, pemBytes: c.pemBytes, mismatch: true})
+		}
+		multiStages(r, ps, extra)
 	}
 	if len(negParties) > 0 {
 		ps["neg(enc_ed1)"] = negParties[0]
+	}
+	if len(uks) > 0 {
+		cliUnsupportedPEM = uks[0].pem
 	}
 	cliStage(r, ps)
 	r.Finish()
